@@ -121,6 +121,25 @@ def plan(tier, seed):
 # drive
 
 MAXDIFFS = 3000
+
+
+def alone(job):
+    """the bodies of a document run one by one through the worker command `opt` under the document's option set:
+    -> (bodies that come back, [set-aside records of those that raise or hang])"""
+    cmds = []
+    for b in job["bodies"]:
+        p = skeldoc.Pos()
+        cmds.append({"cmd": "opt", "items": [p.item("tag", "1"), p.item("JUMPDEST")] + skeldoc.text_items(p, b) + [p.item("STOP")]})
+    rs = pool.run_commands(job["argv"], cmds, 1, 30)
+    good, bad = [], []
+    for b, r in zip(job["bodies"], rs):
+        exc = next((x for x in r.get("blocks", []) if "exc" in x), None)
+        if r.get("killed") or "worker_exc" in r or exc:
+            bad.append({"body": b, "options": job["opt"]["name"],
+                        "why": "killed" if r.get("killed") else "%s in %s" % (exc["exc"]["type"], exc.get("stage")) if exc else "worker"})
+        else:
+            good.append(b)
+    return good, bad
 SHARD_BYTES = 12 * 1024 * 1024          # JSON handed to one TLC JVM
 
 
@@ -145,12 +164,27 @@ def drive(jobs, tier):
             if j["nbodies"] <= 1:
                 aside.append({"body": (j["bodies"] or [""])[0], "options": j["opt"]["name"], "why": r["status"][:200]})
                 continue
+            j["split"] = True
+            if not j.get("filtered"):
+                # first look for the bodies that raise when they are optimized alone (one worker, the run's option set)
+                good, bad = alone(j)
+                aside += bad
+                if bad and good:
+                    nj = synth_job(j["label"] + "f", j["shape"], j["opt"], good)
+                    nj["filtered"] = True
+                    jobs.append(nj)
+                    res.append(None)
+                    todo.append(len(jobs) - 1)
+                    continue
+                if not good:
+                    continue
             h = j["nbodies"] // 2
             for part, bs in (("a", j["bodies"][:h]), ("b", j["bodies"][h:])):
-                jobs.append(synth_job(j["label"] + part, j["shape"], j["opt"], bs))
+                nj = synth_job(j["label"] + part, j["shape"], j["opt"], bs)
+                nj["filtered"] = True
+                jobs.append(nj)
                 res.append(None)
                 todo.append(len(jobs) - 1)
-            j["split"] = True
     keep = [i for i, j in enumerate(jobs) if not j.get("split") and not (j["kind"] == "synth" and res[i]["status"] != "ok" and j["nbodies"] <= 1)]
     jobs, res = [jobs[i] for i in keep], [res[i] for i in keep]
     # the tool's own parser on every emitted file, in a worker with the same PUSH0 setting
@@ -279,6 +313,39 @@ def witness(job, r, t):
     return w
 
 
+def sections(doc):
+    for cname in sorted(doc.get("contracts") or {}):
+        c = doc["contracts"][cname]
+        asm = c.get("asm") if isinstance(c, dict) else None
+        if asm:
+            for path, items in corpus.code_sections(asm):
+                yield cname + path, items
+
+
+def distinct_changed(jobs, res):
+    """statistic for the evidence: distinct (policy, PUSH0 setting, input block, emitted block) with emitted # input,
+    blocks cut as CutBlocks does, streams whose block counts differ left out"""
+    seen = set()
+
+    def sig(b):
+        return tuple((str(it.get("name")), str(it.get("value", ""))) for it in b)
+    for j, r in zip(jobs, res):
+        if r["status"] != "ok":
+            continue
+        try:
+            a, b = dict(sections(skeldoc.load(j["input"]))), dict(sections(skeldoc.load(r["out"])))
+        except Exception:
+            continue
+        for k, items in a.items():
+            ba, bb = cut_blocks(items), cut_blocks(b.get(k, []))
+            if len(ba) != len(bb):
+                continue
+            for x, y in zip(ba, bb):
+                if x != y:
+                    seen.add((j["opt"]["policy"], j["opt"]["push0"], sig(x), sig(y)))
+    return len(seen)
+
+
 def key_of(t):
     """what a known finding is matched on: the clause and the opcode / field it is about"""
     clause, wit = t[3], t[4]
@@ -341,10 +408,11 @@ def run(tier):
                             "cli_wall_s": r["wall"], "verdicts": [[t[3], t[2]] for t in verdicts.get(i + 1, [])][:4]})
     cov = {"states": st["states"], "transitions": st["transitions"],
            "traces_validated_against_impl": len(cases) - len(undec), "samples": samples,
-           "evaluations": blocks, "distinct_nontrivial": guards[0],
+           "evaluations": blocks, "distinct_nontrivial": distinct_changed(jobs, res),
            "rule": "one evaluation = one block of a whole file processed by the real command line tool (runs that emitted a file); "
-                   "non-trivial = a block whose emitted form differs from the input; one trace = one whole-file run judged by SkeletonTrace",
-           "emitted_items_judged": guards[1], "instruction_streams": guards[2], "undecided_runs": len(undec),
+                   "non-trivial = a block whose emitted form differs from the input; distinct = distinct (split policy, PUSH0 setting, input "
+                   "block, emitted block) by opcode names and operands; one trace = one whole-file run judged by SkeletonTrace",
+           "changed_blocks_judged": guards[0], "emitted_items_judged": guards[1], "instruction_streams": guards[2], "undecided_runs": len(undec),
            "undecided_samples": [{"input": jobs[i - 1]["label"], "argv": jobs[i - 1]["argv"], "why": w[:200]} for i, w in sorted(undec.items())[:6]],
            "runs": len(jobs), "synth_ok": ok_synth, "real_ok": ok_real, "corpus": gstats,
            "option_sets": sorted({j["opt"]["name"] for j in jobs}),
